@@ -31,6 +31,8 @@ func Lookup(id string) sim.Property {
 		return C04{}
 	case "C02":
 		return C02{}
+	case "C03":
+		return C03{}
 	case "C08":
 		return C08{}
 	}
